@@ -5,6 +5,11 @@ HERE = os.path.dirname(os.path.dirname(os.path.abspath(__file__)))
 
 # id -> (category, technique, level text, level note, design ref)
 CHECKS = {
+ "C10": ("fault_enumeration",
+   "property-based testing with fault injection: generated protocol scripts on a real RaftNode::with_wal; WAL cut at every byte (thorough) / stratified bytes (quick) of each crashing step; obligations collected from the node's own replies; chains of up to 3 crashes",
+   "Generated scripts (vote requests, appends of every shape incl. conflicts and resends, own elections, leadership + proposals, snapshot installs) drive one real RaftNode::with_wal. At each generated crash step the WAL file is cut at every byte position the step wrote (all positions in thorough and in the crash_allcuts part, record boundaries +-1 / header offsets / interior points otherwise), a node is rebuilt from each prefix and checked against the obligations the node itself created by answering (term acted on, vote granted per term incl. a behavioural probe by a competing candidate, entries acknowledged or accepted as leader), plus exact state equality when nothing was lost; the generated cut continues the chain (writes after a torn tail, further crashes).",
+   "Crash model: everything after a byte position of the append-only file is lost, nothing before it (a dropped fsync is invisible). A reply counts as emitted only if every byte its step wrote survived. Entries replaced by a later accepted AppendEntries / snapshot install are legitimately gone (also when that step was interrupted). Messages are well-formed and built from the node's current log.",
+   "DESIGN.md section 1 C10"),
  "C01": ("exploration",
    "stateful property-based testing (proptest): generated message/timer/crash histories over real RaftNodes with the harness as the network; Raft safety invariants checked after every step; scenario-skeleton seed corpus; directed election suffix",
    "Histories of deliveries (any order, loss, duplication), election timeouts, pre-vote, proposals and crash/restart from the real RaftWal file or a TensorStore image are generated over 3 or 5 real RaftNode objects whose only link is a harness-owned message bag. After every step: election safety, log matching, state-machine safety (global index->entry map of everything any node reported committed), leader completeness, monotone terms/commit index, clean-restart equality. Every node lacking a committed entry is additionally given a full election at the end (it must not win). Sampling, no proof of absence.",
